@@ -13,6 +13,9 @@
 (*   bdecl   : "none" | "optional" | "required"   what the operation declares as requestBody          *)
 (*   body    : "none" | "empty" | "pass" | "fail" | "otherct" | "badjson"  what the request carries     *)
 (*   multi, exclBody, exclQuery, authReadsBody : BOOLEAN                   *)
+(*   opts    : "plain" | "skipdefaults" | "exclreadonly" | "nil": options the statement does not      *)
+(*             mention leave the verdict alone; "nil" = no Options value at all (hence no callback:   *)
+(*             only generated where the security list in effect is empty)                             *)
 (*   hist    : sequence of steps [via, pparams, oparams, opSec, docSec, bdecl]: further validations   *)
 (*             served by the same process / document / Operation value (see View)                     *)
 (***************************************************************************)
@@ -86,7 +89,10 @@ StepWellFormed(c, prev, s) ==
 (* L2: the security evaluation as the code performs it: requirements in order, the schemes *)
 (* of a requirement in sorted order, a requirement abandoned at its first rejected scheme, *)
 (* evaluation stops at the first satisfied requirement.                                    *)
-Declared == {"A", "B", "C"}              \* the schemes components.securitySchemes declares; "U" is not among them
+(* A scheme atom names a declared scheme and the scopes the requirement lists for it: "A+r" is scheme A with scopes   *)
+(* <<"r">>.  The callback is told both and may decide on both, so the outcome is per atom: two alternatives may name  *)
+(* the same scheme with different scopes and fare differently.                                                         *)
+Declared == {"A", "B", "C", "A+r", "A+w"}   \* atoms over the schemes components.securitySchemes declares; "U" is not declared
 RECURSIVE CallsOfReq(_, _)
 CallsOfReq(r, accepts) ==
    IF r = <<>> THEN <<>>
